@@ -111,6 +111,15 @@ enum Item {
 
 /// Drops every handle and the state in the permutation derived from `perm`.
 pub fn teardown(w: &Rc<World>, perm: u64, stabilise_between: bool) {
+    // stabilises between drops can run callbacks that create new handles: sweep until none left
+    for sweep in 0..8u64 {
+        if !teardown_sweep(w, perm.wrapping_add(sweep), stabilise_between && sweep == 0) {
+            break;
+        }
+    }
+}
+
+fn teardown_sweep(w: &Rc<World>, perm: u64, stabilise_between: bool) -> bool {
     let mut items: Vec<Item> = vec![];
     for (i, n) in w.nodes.borrow().iter().enumerate() {
         if n.h.is_some() {
@@ -136,6 +145,9 @@ pub fn teardown(w: &Rc<World>, perm: u64, stabilise_between: bool) {
     }
     if w.state.borrow().is_some() {
         items.push(Item::State);
+    }
+    if items.is_empty() {
+        return false;
     }
     let mut rng = Rng::new(perm);
     rng.shuffle(&mut items);
@@ -197,6 +209,7 @@ pub fn teardown(w: &Rc<World>, perm: u64, stabilise_between: bool) {
             }
         }
     }
+    true
 }
 
 /// After a complete teardown nothing may be left alive.
